@@ -46,7 +46,7 @@ func (C20) AllowsPanic500(sc *drv.Scenario) bool { return true } // judged per r
 
 var c20Kinds = []string{
 	"seg-blocks", "seg-blocks", "seg-blocks", "seg-ingest-supervoxels", "seg-raw", "seg-raw-compressed", "seg-split", "seg-split-supervoxel", "seg-indices", "seg-index", "seg-mappings",
-	"seg-merge", "seg-cleave", "seg-renumber", "ann-elements", "ann-blocks", "ann-move", "kv-key", "kv-keyvalues", "nj-key", "nj-keyvalues", "nj-delete", "nj-stamps", "roi-roi", "roi-ptquery", "gray-raw", "gray-blocks", "url", "url", "node-note", "node-log",
+	"seg-merge", "seg-cleave", "seg-renumber", "ann-elements", "ann-blocks", "ann-move", "kv-key", "kv-keyvalues", "nj-key", "nj-keyvalues", "nj-delete", "nj-stamps", "roi-roi", "roi-ptquery", "gray-raw", "gray-blocks", "url", "url", "node-note", "node-log", "nj-jsonschema",
 }
 
 func (C20) Generate(r *rand.Rand, tier string, idx int) *drv.Scenario {
@@ -547,8 +547,35 @@ func (x *c20Exec) buildHostile(kind string, r *rand.Rand) (rq proto.Req, what st
 		body, wh := mutJSON(r, elemJSON(r, 2))
 		return post(ann+"/elements", body), "elements " + wh, nil
 	case "ann-blocks":
+		if r.IntN(3) == 0 {
+			// a malformed block key
+			key := pick(r, []string{"1,1", "7", "", "a,b,c", "1,2,3,4", "1,,2", ",", "-1,-1", "99999999999,0,0", " 1, 2, 3"})
+			body := []byte(`{"0,0,0":` + string(elemJSON(r, 1)) + `,"` + key + `":` + string(elemJSON(r, 1)) + `}`)
+			return post(ann+"/blocks", body), fmt.Sprintf("element blocks with block key %q", key), nil
+		}
 		body, wh := mutJSON(r, []byte(`{"0,0,0":`+string(elemJSON(r, 1))+`,"1,0,1":`+string(elemJSON(r, 1))+`}`))
 		return post(ann+"/blocks", body), "element blocks " + wh, nil
+	case "nj-jsonschema":
+		// a valid JSON schema first, then a damaged one: refused, it must not have replaced the stored one
+		valid := []byte(fmt.Sprintf(`{"$schema":"http://json-schema.org/draft-07/schema#","type":"object","properties":{"bodyid":{"type":"integer"},"group":{"type":"integer","minimum":%d}}}`, -r.IntN(100)))
+		if st, b, err := w.HTTP("POST", nj+"/json_schema", valid); err != nil {
+			return rq, "", err
+		} else if st != 200 {
+			return rq, "", fmt.Errorf("%w: valid POST json_schema refused: %d %s", drv.ErrInfra, st, trunc(b))
+		}
+		var body []byte
+		var wh string
+		switch r.IntN(4) {
+		case 0:
+			body, wh = valid[:len(valid)/2], "truncated in the middle"
+		case 1:
+			body, wh = []byte(`{"type":"objekt","properties":7}`), "unknown type and a number for properties"
+		case 2:
+			body, wh = []byte(`{"type":"object","properties":{"bodyid":{"type":"integer","minimum":"x"}}}`), "a string for minimum"
+		default:
+			body, wh = mutJSON(r, valid)
+		}
+		return post(nj+"/json_schema", body), "neuron JSON schema " + wh, nil
 	case "ann-move":
 		c := func() string {
 			return pick(r, []string{fmt.Sprintf("%d_%d_%d", r.IntN(32), r.IntN(32), r.IntN(32)), "1_2", "x_y_z", "-2147483649_0_0", "1_2_3_4", ""})
@@ -940,7 +967,7 @@ func (C20) Execute(sc *drv.Scenario, w *drv.World) (*drv.Violation, error) {
 			desc := fmt.Sprintf("%s %s (%d-byte body: %s)", rq.Method, rq.URL, len(rq.Body), what)
 			nodeBefore := ""
 			// kinds that replace one value as a whole: a refused request has nothing it may legitimately have applied in part
-			atomicKind := strings.HasPrefix(op.K, "node-") || op.K == "seg-index"
+			atomicKind := strings.HasPrefix(op.K, "node-") || op.K == "seg-index" || op.K == "nj-jsonschema"
 			if atomicKind {
 				_, b, err := w.HTTP("GET", rq.URL, nil)
 				if err != nil {
